@@ -57,6 +57,8 @@ type c11Scenario struct {
 	Bytes   int        `json:"bytes_each_way"`
 	Reconnects int     `json:"reconnects"`
 	Inject  int        `json:"injections"`
+	PollAccept bool    `json:"accept_polls_with_deadlines,omitempty"` // the accept loop sets a deadline before every Accept: none, a few ms ahead, or one that has already passed
+	ClockMs    uint32  `json:"clock_ms,omitempty"`                    // reading of the library's 32-bit millisecond clock when the scenario starts
 }
 
 func peerKey(addr net.Addr, conv uint32) string { return fmt.Sprintf("%s/%#x", addr.String(), conv) }
@@ -68,9 +70,31 @@ func (w *c11World) viol11(key, format string, args ...any) {
 // acceptLoop accepts for ever, checks the multiset rule and starts the
 // server-side handler of each session.
 func (w *c11World) acceptLoop() {
+	var prng *vrng
+	if w.sc.PollAccept {
+		prng = newRng(uint64(w.sc.Case), 0xacc)
+	}
 	for {
+		if prng != nil {
+			switch prng.intn(4) {
+			case 0:
+				w.listener.SetReadDeadline(time.Time{})
+			case 1:
+				w.listener.SetReadDeadline(time.Now().Add(-time.Millisecond)) // late: already expired
+			case 2:
+				w.listener.SetReadDeadline(time.Now())
+			default:
+				w.listener.SetReadDeadline(time.Now().Add(time.Duration(prng.between(1, 40)) * time.Millisecond))
+			}
+		}
 		s, err := w.listener.AcceptKCP()
 		if err != nil {
+			if prng != nil && classify(0, err) == "timeout" {
+				// a poll that found nobody (or lost the draw against its own
+				// deadline): whoever waits in the backlog is still there
+				time.Sleep(time.Duration(prng.between(0, 3)) * time.Millisecond)
+				continue
+			}
 			return
 		}
 		w.accepted.Add(1)
@@ -248,6 +272,8 @@ func TestVerifC11(t *testing.T) {
 		}
 		sc.Reconnects = rng.intn(min(4, sc.Clients) + 1)
 		sc.Inject = rng.between(5, 30)
+		sc.PollAccept = rng.chance(0.4)
+		sc.ClockMs = pick(rng, []uint32{0, 0, 100_000, 3_600_000, 1<<31 - 3000, 0xffffffff - 4000})
 		if q%8 == 7 {
 			sc.Part = "backlog"
 			sc.Clients = 128 + rng.between(3, 20)
@@ -506,7 +532,9 @@ func runC11(t *testing.T, rec *vrec, sc *c11Scenario, rng *vrng) {
 		}
 		return pf(dir, nth, now, data)
 	})
-	refTime = time.Now()
+	// the library's millisecond clock: freshly started, a process that has been up
+	// for minutes, or about to pass 2^31 / 2^32
+	refTime = time.Now().Add(-time.Duration(sc.ClockMs) * time.Millisecond)
 	yieldMode.Store(1)
 	defer yieldMode.Store(0)
 	scCopy := *sc
